@@ -22,6 +22,11 @@ FORMULAS = ["y ~ x + f", "y ~ center(x) + g", "y ~ scale(z):f + (1 | g)", "y ~ 0
             "y ~ poly(x, 2) + f + (1 | h)", "y ~ bs(z, df=4) + (center(x) | g)", "y ~ S(f):x + o", "f ~ x + g",
             "y ~ standardize(w) + C(f, Sum) + (1 | g:h)"]
 MODES = ["error", "warning", "silent", "bogus"]
+# a formula that calls a user function taken from extra_namespace; builds that use it pass one of two
+# different definitions of tr, and every build of a history receives the SAME Environment object as env=
+TR = len(FORMULAS)
+FORMULAS = FORMULAS + ["y ~ tr(x) + f"]
+NAMESPACES = {"A": "lambda v: v * 2 + 1", "B": "lambda v: v * v", "C": None}
 
 
 def _pool(rng):
@@ -65,6 +70,14 @@ def gen(rng, tier):
     n = 1500 if tier == "thorough" else 120
     for _ in range(n):
         cases.append({"frames": _pool(rng), "ops": _history(rng, rng.randint(2, 12)), "kind": "random"})
+    # histories whose builds share one caller-supplied Environment and differ in extra_namespace
+    for i in range(200 if tier == "thorough" else 30):
+        ops = []
+        for _ in range(rng.randint(2, 4)):
+            ops.append(["build", TR, rng.choice([0, 3]), rng.choice(["A", "B", "A", "B", "C"])])
+            if rng.random() < 0.5:
+                ops.append(["common", len([o for o in ops if o[0] == "build"]) - 1, rng.randrange(4)])
+        cases.append({"frames": _pool(rng), "ops": ops, "kind": "shared-env", "shared_env": True})
     # a share of short histories is additionally compared with a brand-new interpreter per operation
     for i in range(60 if tier == "thorough" else 12):
         ops = [["build", rng.choice([7, 8, 1, 4, 6]), 0], ["build", rng.choice([7, 8, 1, 4, 6]), 3],
@@ -94,7 +107,7 @@ def nontrivial(c, mo, obs):
 
 def model_cmd(c):
     import core
-    ops = [[o[0]] + [str(x) for x in o[1:]] for o in c["ops"]]
+    ops = [[o[0]] + [str(x) for x in o[1:3]] for o in c["ops"]]
     return core.sshow(["c07", FORMULAS, [dm.frame_sexp(f) for f in c["frames"]], ops])
 
 
@@ -108,11 +121,16 @@ def _execute(c, fresh_each=False):
     formulae.config["EVAL_UNSEEN_CATEGORIES"] = "error"
     designs, outs, trained = [], [], []
     problems = []
+    from formulae.environment import Environment
+    shared = Environment.capture(0) if c.get("shared_env") else 0
     try:
         for o in c["ops"]:
             if o[0] == "build":
                 try:
-                    d = design_matrices(FORMULAS[o[1]], dfs[o[2]])
+                    ns = None
+                    if len(o) > 3 and NAMESPACES.get(o[3]):
+                        ns = {"tr": eval(NAMESPACES[o[3]])}
+                    d = design_matrices(FORMULAS[o[1]], dfs[o[2]], env=shared, extra_namespace=ns)
                     designs.append(d)
                     trained.append([None if p is None else np.array(p.design_matrix, copy=True)
                                     for p in (d.response, d.common, d.group)])
@@ -173,8 +191,17 @@ def impl_obs(c):
 def compare(c, mo, obs):
     if len(mo) != len(obs[1]):
         return f"history {c['ops']}: {len(mo)} model outputs, {len(obs[1])} implementation outputs"
+    tr_designs = set()
+    nb = 0
+    for o in c["ops"]:
+        if o[0] == "build":
+            if o[1] == TR:
+                tr_designs.add(nb)
+            nb += 1
     for k, (m, i) in enumerate(zip(mo, obs[1])):
         op = c["ops"][k]
+        if (op[0] == "build" and op[1] == TR) or (op[0] in ("common", "group") and op[1] in tr_designs):
+            continue  # calls a user function: outside the model, decided by the oracle
         if m[0] != i[0]:
             return f"op {k} {op}: model {m[0]} implementation {i[0]}"
         if m[0] == "bad":
